@@ -423,6 +423,9 @@ class ArrayLiteral(Expression):
             if isinstance(value.type, ArrayType):
                 raise TypeCheckError('Nested arrays are unsupported', value.span)
 
+            if value.type == DataType.EMPTY:
+                raise TypeCheckError('Array elements may not be empty', value.span)
+
             # The preferred element type for an array literal, ie the
             # type used preferentially to match function signatures, is
             # the first type that all other elements may be coerced to.
